@@ -79,12 +79,16 @@ def gen_matching(rng, nsurf, collections=True):
 def gen_case(rng, malformed=False, partition=False, max_size=40):
     nsurf = rng.randint(1, 8)
     matching, free = gen_matching(rng, nsurf, collections=not partition)
-    fault = rng.choice(['facet_hi', 'facet0', 'cell', 'surface', 'rn',
-                        'none']) if malformed else None
+    fault = rng.choice(['facet_hi', 'facet0', 'facet_neg', 'facet_index',
+                        'cell', 'surface', 'rn', 'none']) if malformed else None
+    # facet_neg: Python's negative index still inside the list (-len+1 .. 0);
+    # facet_index: below it (IndexError)
     facets = {k: list(range(1, len(v) + 1)) + ([0] if fault == 'facet0' else [])
               + ([len(v) + 1] if fault == 'facet_hi' else [])
+              + ([-len(v) + 1, -1] if fault == 'facet_neg' and len(v) >= 2 else [])
+              + ([-len(v), -len(v) - 2] if fault == 'facet_index' else [])
               for k, v in matching.items()
-              if len(v) >= 2 or fault in ('facet0', 'facet_hi')}
+              if len(v) >= 2 or fault in ('facet0', 'facet_hi', 'facet_index')}
     surfs = list(matching)
     ncells = rng.choice([1, 1, 2, 3, 4, 6])
     ids = rng.sample(range(1, 40), ncells)
